@@ -466,11 +466,21 @@ impl Prop for C11 {
 
         ctx.feat("cases");
         ctx.feat_if(case.quiet, "handler.quiet");
-        let mut handler = if case.quiet {
+        let mut concrete = if case.quiet {
             KittyImageHandler::new().quiet()
         } else {
             KittyImageHandler::new()
         };
+        // half of the histories talk to the handler the way the terminal object holds it: boxed,
+        // behind the trait object
+        let mut boxed: Box<dyn ImageHandler> = if case.quiet {
+            Box::new(Box::new(KittyImageHandler::new().quiet()))
+        } else {
+            Box::new(KittyImageHandler::new())
+        };
+        let use_boxed = (case.events.len() + case.pool.len()) % 2 == 1;
+        ctx.feat_if(use_boxed, "handler.boxed-trait-object");
+        let handler: &mut dyn ImageHandler = if use_boxed { &mut boxed } else { &mut concrete };
         let mut store = Store::new();
         let mut sh = Shadow {
             id_of: BTreeMap::new(),
